@@ -147,6 +147,15 @@ def protocols():
                          "@next": fn0(If([Cmp(["<"], [Dot(Id("self"), "c"), Int(1)])],
                                          [Block([DOpAsg(Id("self"), "c", "+", Int(1))])], Block([Null()])))}, {"c": Int(0)})),
              For(["v"], Id("a"), Block([Core("print", [Id("v")])]))],
+            # ... in every place that iterates: unpacking, iterator functions, spreading into a call
+            [Asg("a", O({"@iterator": fn0(say("iterator", Tuple([Int(8), Int(9)]))),
+                         "@next": fn0(If([Cmp(["<"], [Dot(Id("self"), "c"), Int(2)])],
+                                         [Block([DOpAsg(Id("self"), "c", "+", Int(1))])], Block([Null()])))}, {"c": Int(0)})),
+             MAsg(["p", "q"], Id("a")), Core("print", [Tuple([Id("p"), Id("q")])])],
+            [Asg("a", O({"@iterator": fn0(say("iterator", Tuple([Int(8), Int(9)]))),
+                         "@next": fn0(If([Cmp(["<"], [Dot(Id("self"), "c"), Int(2)])],
+                                         [Block([DOpAsg(Id("self"), "c", "+", Int(1))])], Block([Null()])))}, {"c": Int(0)})),
+             Core("print", [MCall(Id("a"), "to_tuple", [])])],
         ]
         for c in cases:
             reset_ids()
